@@ -19,9 +19,20 @@ func (x *Hex) MarshalJSON() ([]byte, error) {
 }
 
 func (x *Hex) UnmarshalJSON(b []byte) error {
-	b = b[1 : len(b)-1]
-	_, err := hex.Decode((*x)[:], b)
+	// the value comes from the other side of the wire: it has to be a JSON string of
+	// exactly 32 hex digits, anything else is an error, not a slice out of bounds
+	if len(b) != 2*len(x)+2 || b[0] != '"' || b[len(b)-1] != '"' {
+		return fmt.Errorf("invalid hex checksum %s: want a string of %d hex digits", truncateForError(b), 2*len(x))
+	}
+	_, err := hex.Decode((*x)[:], b[1:len(b)-1])
 	return err
+}
+
+func truncateForError(b []byte) string {
+	if len(b) > 40 {
+		return string(b[:40]) + "..."
+	}
+	return string(b)
 }
 
 func AppendHex(sl []*Hex, b []byte) []*Hex {
